@@ -293,6 +293,31 @@ pub fn run(o: &Opts) -> i32 {
             }
         }
     }
+    // foreign characters inside LONG texts (a block-wise decoder may validate its blocks differently from its tail): every
+    // foreign ASCII character substituted at the first, a middle and the last position of each 1024-character block region
+    let nlong = o.num("longforeign", 0);
+    for k in 0..nlong {
+        let len = [1500usize, 2307, 3072, 770][k as usize % 4];
+        let input: Vec<u8> = (0..len).map(|_| rng.gen()).collect();
+        let (_, text) = enc_event(&input);
+        if let Some(t) = text {
+            let tb = t.as_bytes();
+            out.emit(&dec_event(tb)); // the intact long text must decode to the input
+            let positions: Vec<usize> = [0usize, 1, 511, 1023, 1024, 1025, 2047, 2048, tb.len() / 2, tb.len() - 5, tb.len() - 1]
+                .iter().cloned().filter(|p| *p < tb.len() && tb[*p] != b'=').collect();
+            for c in 0u8..128 {
+                let ch = c as char;
+                if ch.is_ascii_alphanumeric() || ch == '+' || ch == '/' || ch == '=' {
+                    continue;
+                }
+                for p in positions.iter() {
+                    let mut m = tb.to_vec();
+                    m[*p] = c;
+                    out.emit(&dec_event(&m));
+                }
+            }
+        }
+    }
     let n = out.n;
     out.finish();
     eprintln!("base64: {} events", n);
